@@ -152,12 +152,43 @@ def load_worlds():
             importlib.import_module('sim.worlds.' + fn[:-3])
 
 
+class RunTimeout(BaseException):
+    """raised by the per-run wall-clock alarm; BaseException so that no `except Exception` in a world swallows it"""
+
+
+RUN_TIMEOUT_S = float(os.environ.get('VERIF_RUN_TIMEOUT_S', '30'))
+
+
+def _on_alarm(signum, frame):
+    raise RunTimeout()
+
+
 def execute(case):
-    """Run one case on the real code.  Harness exceptions propagate."""
+    """Run one case on the real code.  Harness exceptions propagate.
+
+    A run normally takes milliseconds.  If the library does not return within RUN_TIMEOUT_S seconds of wall time (a
+    runaway cascade or an endless loop on a broken tree) the run is reported as a `<prop>.hang` violation instead of
+    stalling the batch; the bound is three to four orders of magnitude above a normal run."""
+    import signal
     w = world_for(case['prop'])
     quiet_param_logging()
     reset_param_globals()
-    return w.run(case)
+    use_alarm = RUN_TIMEOUT_S > 0 and hasattr(signal, 'setitimer')
+    if use_alarm:
+        old = signal.signal(signal.SIGALRM, _on_alarm)
+        signal.setitimer(signal.ITIMER_REAL, RUN_TIMEOUT_S)
+    try:
+        return w.run(case)
+    except RunTimeout:
+        out = Outcome()
+        out.log.append('RUN-TIMEOUT')
+        out.violations.append((f"{case['prop']}.hang", None,
+                               f"the library did not return within {RUN_TIMEOUT_S:.0f} s of wall time in this run (normal runs take milliseconds)"))
+        return out
+    finally:
+        if use_alarm:
+            signal.setitimer(signal.ITIMER_REAL, 0)
+            signal.signal(signal.SIGALRM, old)
 
 
 def generate(prop, seed, index, tier, avoid=()):
